@@ -194,3 +194,23 @@ VERIF_OBLIGATION(obl_c09_zone_negate_exterior)
     verif_assert(!in_a || inside(ext, p), "get_exterior_bbox contains the region");
     verif_assert(consistent(n, p, !in_a), "negate() describes the complement");
 }
+
+// C09.3b: the axis-aligned box of a transformed box contains the image of every point of the box (finite boxes; any matrix: convexity only)
+#include "orange/BoundingBoxUtils.cc"
+#include "orange/transform/Transformation.hh"
+VERIF_OBLIGATION(obl_c09_bbox_transform)
+{
+    Real3 lo{val("lo"), val("lo"), val("lo")}, hi{val("hi"), val("hi"), val("hi")};
+    verif_assume((lo[0] <= hi[0]) & (lo[1] <= hi[1]) & (lo[2] <= hi[2]));
+    BBox a = BBox::from_unchecked(lo, hi);
+    double m[12];
+    for (int i = 0; i < 12; ++i)
+        m[i] = val("xform");
+    Transformation tr(Span<real_type const, 12>(m, 12));
+    Real3 p{val("p"), val("p"), val("p")};
+    verif_assume(inside(a, p));
+    BBox b = calc_transform(tr, a);
+    Real3 q = tr.transform_up(p);
+    verif_reach("bbox_transform");
+    verif_assert(inside(b, q), "the transformed box contains the image of every point of the box");
+}
